@@ -26,7 +26,15 @@ Exhaustive enumeration (driver E1):
     selector (callable, class, Selector, list, tuple; selecting isolated values, runs of consecutive
     values, all, none), the inner elements given as arguments / as one Sequence / grouped, the RunIf
     alone, nested, in a Source tail and between other elements: every selected value is fed to the
-    inner elements as a flow of this ONE value, not selected values pass unchanged (RunIf docstring).
+    inner elements as a flow of this ONE value, not selected values pass unchanged (RunIf docstring);
+  * law "nodata": elements without data (lena.meta: SetContext, StoreContext - they set or store the
+    static context of the sequence and have no stream transformation) among the arguments: one such
+    element of either kind at every slot of every wrapped / grouped bracketing and of every Source form
+    - between two elements, at either end, inside every nested Sequence, in the tails of nested
+    Sources, BEFORE the generating element of every Source (the generating element is the first
+    element with data; lena's own tests build Source(SetContext(..), first, ...)) -, a nested Sequence
+    that holds nothing but such an element (at the slots of the flat forms), and such elements in all
+    slots at once: the result is the one of the flat Sequence of the elements with data.
 """
 import itertools
 import json
@@ -39,6 +47,7 @@ import lena.math
 from mc.core import Result, result_violations
 from mc.ref import c01c05_common as cm
 from mc.ref import c01_adapters as ad
+from mc.ref import c01_nodata as nd
 from mc.ref.c01_adapters import build
 
 ID = "C01"
@@ -52,6 +61,9 @@ RULE = ("one evaluation = one real pipeline object (a flat Sequence, one bracket
         "a RunIf case (one RunIf with one inner list, selector, inner form and place over one flow, "
         "judged against the RunIf docstring applied by hand) is non-trivial when the inner list is not "
         "empty and at least two values of the flow are selected; "
+        "a form of the nodata law (a bracketing or Source form with elements without data among its "
+        "arguments, judged against the flat Sequence of the elements with data) is one more evaluation of "
+        "its list and flow and non-trivial by the same rule; "
         "cases are distinct by construction of the enumeration")
 ASSUMPTIONS = [
     "vocabulary of 17 element factories (see bounds_description); data are small ints, contexts are "
@@ -66,10 +78,14 @@ ASSUMPTIONS = [
     "an element (Call, FillCompute, Run, FillRequest), fill_into alone does not (FillInto: "
     "LenaTypeError); a SourceEl (callable without an argument) in a tail may be rejected or taken as "
     "a callable, as first element of a Source it stands for its flow",
+    "elements without data are the two lena.meta documents, SetContext(key, constant) and StoreContext(); "
+    "they set / store static context, which no element of the vocabulary turns into data (that is "
+    "UpdateContextFromStatic, C13); a Source always has a generating element (an element with data); the "
+    "static context they set is not looked at here (C13)",
     "a single tuple argument (Sequence((a, b))) is outside the alphabet: the docstring and the code "
     "disagree about it and the statement does not mention it; a tuple among several arguments is ill-typed",
 ]
-NONTRIVIAL_FLOOR = {"quick": 200000, "thorough": 2000000}
+NONTRIVIAL_FLOOR = {"quick": 250000, "thorough": 2500000}
 BUDGET_S = {"quick": 240, "thorough": 1500}
 
 VOCAB = [
@@ -92,13 +108,24 @@ def describe(tier):
             "in every ordered pair, all forms; RunIf(selector, inner list) for every inner list of length "
             "0..%d over the factories, selectors %s (inner lists longer than 1: %s), inner forms %s, places "
             "%s, flows of m = %s values "
-            "bare, with contexts and with None values"
+            "bare, with contexts and with None values; elements without data %s: for lists of length "
+            "0..%d one at every slot (top level, inside nested Sequences, tails of nested Sources, before "
+            "the generating element) of the forms %s, in the flat ones also a nested Sequence of one such "
+            "element, and all slots at once (%s forms with such elements per list), for longer "
+            "lists before the generating elements of the flat Source forms (iterable first, callable first, "
+            "nested Source after one element) and in every slot of these and of the flat Sequence at once "
+            "(%d forms), over flows of m = %s values bare and with contexts (lists shorter than 2: all flows); "
+            "lists with adapter objects are not given elements without data"
             % (N, len(VOCAB), VOCAB,
                {"n=%d" % n: list(_flow_lengths(tier, n)) for n in sorted(set((min(N, 3), N)))},
                N, [len(forms(n)) for n in range(N + 1)], [b for b in BAD], GOOD_FOR_BAD, OPEN,
                ad.ACCEPTED_ORDER, 2 if tier == "thorough" else 1, _runif_maxlen(tier),
                ad.SELECTOR_ORDER, _runif_selectors(tier, 2), RUNIF_INNER_FORMS, RUNIF_PLACES,
-               list(_runif_flow_lengths(tier))))
+               list(_runif_flow_lengths(tier)),
+               nd.NODATA_ORDER, _nodata_full_len(tier), list(_NODATA_BASE),
+               [len(nodata_forms(n, tier)) for n in range(_nodata_full_len(tier) + 1)],
+               len(nodata_forms(_nodata_full_len(tier) + 1, tier)),
+               {"n<=2": list(_nodata_flow_lengths(2)), "n>=3": list(_nodata_flow_lengths(3))}))
 
 
 # ---------------------------------------------------------------------------------------------------
@@ -192,11 +219,75 @@ def forms(n):
     return out
 
 
+# law "nodata": the forms above with elements without data (lena.meta: SetContext, StoreContext) among
+# the arguments. Base forms: the flat list, every wrapped / grouped bracketing, and every Source form
+# over them (an empty nested Sequence is an element with data like any other and adds nothing here).
+_NODATA_BASE = ("flat", "wrap", "grouped", "source-list/flat", "source-list/wrap", "source-list/grouped",
+                "source-callable/flat", "source-adapter", "source-nested")
+_NODATA_FORMS = {}
+
+
+def _nodata_full_len(tier):
+    """Lists up to this length get one element without data at EVERY slot of EVERY base form; longer
+    lists get it before the generating element of the flat Source forms, and everywhere at once."""
+    return 3 if tier == "thorough" else 2
+
+
+def nodata_forms(n, tier):
+    """Deterministic list of the forms with elements without data for a list of n elements."""
+    full = n <= _nodata_full_len(tier)
+    if (n, full) in _NODATA_FORMS:
+        return _NODATA_FORMS[(n, full)]
+    flat = list(range(n))
+    out, seen = [], set()
+
+    def add(f):
+        key = json.dumps(f, sort_keys=True)
+        if key not in seen:
+            seen.add(key)
+            out.append(f)
+
+    for base in forms(n):
+        if base["kind"] not in _NODATA_BASE:
+            continue
+        if full:
+            for f in nd.single(base, sequences_of_one=base["kind"].endswith("flat")):
+                add(f)
+            add(nd.saturated(base))
+            continue
+        # reduced: flat forms; of the nested Sources the one that splits the list after one element
+        if base["tree"] != flat or base["kind"] == "source-adapter" or base["top"] == "source-nested-callable":
+            continue
+        if base["top"].startswith("source-nested") and base["k"] != min(1, n):
+            continue
+        if base["top"] != "sequence":
+            for f in nd.before_first(base):
+                add(f)
+        add(nd.saturated(base))
+    _NODATA_FORMS[(n, full)] = out
+    return out
+
+
+def _nodata_flow_lengths(n):
+    return (0, 1, 3) if n <= 2 else (0, 3)
+
+
+def _nodata_flows(tier, n):
+    """Flows of the nodata law: where an argument stands does not meet the length of the flow, so lists
+    of two elements are run over flows of 0, 1 and 3 values, longer lists over flows of 0 and 3 values
+    (bare and with contexts)."""
+    if n <= 1:
+        return frozenset(_flows(tier, n))
+    return frozenset((kind, m) for kind in cm.FLOW_KINDS for m in _nodata_flow_lengths(n))
+
+
 def _args(tree, els):
     out = []
     for item in tree:
         if isinstance(item, list):
             out.append(lena.core.Sequence(*_args(item, els)))
+        elif nd.is_nodata(item):
+            out.append(nd.build(item))      # a fresh element without data
         else:
             out.append(els[item])
     return out
@@ -210,20 +301,27 @@ def make_thunk(form, specs, flow):
     if top == "sequence":
         seq = lena.core.Sequence(*args)
         return lambda: seq.run(flow)
+    # elements without data that stand before the generating element of the Source (law nodata)
+    pre = [nd.build(leaf) for leaf in form.get("pre", ())]
     if top == "source-list":
-        src = lena.core.Source(flow, *args)
+        src = lena.core.Source(*(pre + [flow] + args))
         return lambda: src()
     if top == "source-callable":
-        src = lena.core.Source(lambda: iter(flow), *args)
+        src = lena.core.Source(*(pre + [lambda: iter(flow)] + args))
         return lambda: src()
     if top in ("source-el-list", "source-el-callable"):
         first = lena.core.SourceEl(flow if top == "source-el-list" else (lambda: iter(flow)))
-        src = lena.core.Source(first, *args)
+        src = lena.core.Source(*(pre + [first] + args))
         return lambda: src()
-    k = form["k"]
     first = flow if top == "source-nested" else (lambda: iter(flow))
-    inner = lena.core.Source(first, *args[:k])
-    src = lena.core.Source(inner, *args[k:])
+    if "inner" in form:     # the two argument lists written out (law nodata)
+        inner_args, outer_args = _args(form["inner"], els), args
+    else:
+        k = form["k"]
+        inner_args, outer_args = args[:k], args[k:]
+    pre_inner = [nd.build(leaf) for leaf in form.get("pre_inner", ())]
+    inner = lena.core.Source(*(pre_inner + [first] + inner_args))
+    src = lena.core.Source(*(pre + [inner] + outer_args))
     return lambda: src()
 
 
@@ -475,8 +573,9 @@ def check_containers(res):
     res.sample(case, 1)
 
 
-def check_compose(res, specs, flowspec, form_list=None):
-    """Run every form of the list *specs* over the flow and judge it. Returns the last case."""
+def check_compose(res, specs, flowspec, form_list=None, tier=None):
+    """Run every form of the list *specs* over the flow and judge it (with *tier* also the forms with
+    elements without data of that tier). Returns the last case."""
     kind, m = flowspec
     n = len(specs)
     flow0 = cm.make_flow(kind, m)
@@ -488,6 +587,8 @@ def check_compose(res, specs, flowspec, form_list=None):
     flat_out = None
     case = None
     todo = all_forms if form_list is None else form_list
+    if form_list is None and tier is not None and tuple(flowspec) in _nodata_flows(tier, n):
+        todo = list(todo) + nodata_forms(n, tier)
     if flat_form not in todo:
         todo = [flat_form] + list(todo)
     for form in todo:
@@ -503,15 +604,18 @@ def check_compose(res, specs, flowspec, form_list=None):
             flat_out = got
             expected, law = ref, "fold"
         else:
-            expected, law = flat_out, "regroup"
+            expected, law = flat_out, form.get("law", "regroup")
         res.case(nontrivial=base_nt, outcome=(got[0], got[1]))
+        if law == "nodata":
+            res.count("nodata_forms_run")
         if got[0] == "exc":
             res.count("pipelines_raising")
         if not cm.same(got, expected):
             res.violation(case, cm.show(got), cm.show(expected),
                           {"law": law, "form": form["kind"], "diff": cm.diff_kind(got, expected)},
                           note="expected = " + ("materialised fold over standalone elements"
-                                                if law == "fold" else "result of the flat Sequence"))
+                                                if law == "fold" else "result of the flat Sequence"
+                                                + (" of the elements with data" if law == "nodata" else "")))
         elif (kind == "bare" and got[0] == "ok" and all(sp in STATELESS for sp in specs)):
             # the same pipeline object over the same (immutable) flow again: elements without state
             # compose to a function of the flow, so a second run / call yields the same values
@@ -860,12 +964,12 @@ def run_shard(p, tier):
         for n in (0, 1):
             for specs in itertools.product(VOCAB, repeat=n):
                 for fs in _flows(tier, n):
-                    case = check_compose(res, specs, fs)
+                    case = check_compose(res, specs, fs, tier=tier)
                 res.sample(case, 3)
         # pipelines made of empty Sequences only (identity law), a few more shapes
         for n in (2, 3, 4):
             for fs in _flows(tier, 1):
-                case = check_compose(res, ("Sequence()",) * n, fs)
+                case = check_compose(res, ("Sequence()",) * n, fs, tier=tier)
     elif p["kind"] == "callables":
         check_callables(res)
         check_containers(res)
@@ -892,7 +996,7 @@ def run_shard(p, tier):
             if all(s == "Sequence()" for s in specs):
                 continue        # done in the short shard (keeps cases distinct)
             for fs in _flows(tier, p["n"]):
-                case = check_compose(res, specs, fs)
+                case = check_compose(res, specs, fs, tier=tier)
             res.sample(case, 3)
     return res
 
@@ -946,9 +1050,14 @@ LEVEL_TEXT = ("bounded exhaustive exploration: every element list of length 0..3
               "element list of length 0..2 (thorough: 0..3), 9 selectors (quick: 5 for inner lists longer "
               "than 1), 3 inner forms and 4 places is "
               "compared with its docstring applied by hand (each selected value alone through the inner "
-              "elements)")
+              "elements); elements without data (SetContext, StoreContext) are put at every slot of every "
+              "bracketing and Source form of every list of length 0..2 (thorough: 0..3) - also before the "
+              "generating element of a Source and alone in a nested Sequence - and, for longer lists, before "
+              "the generating elements of the flat Source forms and into all slots at once: the result must "
+              "be that of the flat Sequence of the elements with data")
 LEVEL_NOTE = ("holds for the enumerated vocabulary and bounds only; results are compared after exhaustion "
-              "(laziness is C02's subject); a single tuple argument is outside the alphabet")
+              "(laziness is C02's subject); a single tuple argument is outside the alphabet; the static "
+              "context that elements without data set is C13's subject, here only the data flow is judged")
 TECHNIQUE = ("exhaustive enumeration of programs x bracketings x flows on the real code against a "
-             "materialised-fold reference, a flat-vs-regrouped differential relation and a hand-written "
-             "reading of the RunIf docstring")
+             "materialised-fold reference, a flat-vs-regrouped differential relation (also with elements "
+             "without data placed among the arguments) and a hand-written reading of the RunIf docstring")
